@@ -2,6 +2,13 @@ CLAIMED = {
  "C19": ("Proof, for all byte strings and with no bound on length, that the RPKI-RTR PDU decoders (ParseRTR and the five DecodeFromBytes bodies) never index or slice out of range, never dereference nil, write only to the receiver (caller's buffer unmodified) and establish the stated length postconditions; uint32 length arithmetic is modelled with wrap-around.",
          "Partial: only pkg/packet/rtr is under contract so far (MRT/BMP/ZAPI/BFD decoders and every round-trip sentence are not decided). Trusted: go/ssa, the VC generator, the SMT solvers, models of encoding/binary; sequential semantics.",
          "deductive verification: WP over go/ssa + SMT (z3/cvc5)", "DESIGN.md 4 C19"),
+
+ "C05": ("Proof, for every byte string (message body up to 65535 octets) and every option set, that the BGP decoders under contract never index/slice out of range, never dereference nil, never fail a type assertion, terminate (a decreases clause on every loop), write only to the receiver / fresh memory (caller's buffer unmodified), and return only *MessageError errors (the UPDATE decoder asserts that type unchecked): header, OPEN with all capability types, UPDATE with the core path attributes, AS_PATH/AS4_PATH segments, MP_REACH/MP_UNREACH, extended communities, IPv4/IPv6/labeled/VPN NLRI, NOTIFICATION, ROUTE-REFRESH, ParseBGPMessage/parseBody.",
+         "Partial: non-core families and attributes (EVPN, FlowSpec, BGP-LS, MUP, SR-policy, VPLS, tunnel-encap, prefix-SID, PMSI, AIGP, IP6 ext-communities) are havoc callees / assumed refinements (listed in the evidence); String/JSON rendering and re-serialisation of decoded values not decided; recvMessageWithError not under contract. Trusted: go/ssa, VC generator, solvers, models of encoding/binary, netip (pure), fmt/errors constructors.",
+         "deductive verification: WP over go/ssa + SMT (z3/cvc5), Houdini-inferred loop invariants", "DESIGN.md 4 C05"),
+ "C03": ("Proof that each step of the real comparator chain equals the corresponding key of the documented decision process for all routes and all three selection options (LLGR-stale, reachable next hop, LOCAL_PREF, local origin, AS_PATH length, ORIGIN, MED when comparable, eBGP over iBGP, age/router-id, neighbour address), that the closure insertSort hands to sort.Search equals the lexicographic order specPref built from those keys, and (lemmas, proved by the solver over uninterpreted route features) that specPref is total and - when MED is comparable - transitive, i.e. a total preorder, which is what makes binary insertion independent of arrival order up to full ties.",
+         "Known findings D3 (confederation-member paths: age/router-id steps inconsistent with the eBGP-over-iBGP step). Not yet under contract: insertSort's use of sort.Search/slices.Insert (sortedness is argued from the lemmas, not machine-checked), getMultiBestPath (D4), Path.Compare. Route features (GetLocalPref, GetAsPathLen, IsLLGRStale, getPathAttr, GetSource, GetTimestamp, firstAS closure) are specification vocabulary: uninterpreted, their bodies are not verified. Trusted axioms: netip.Addr.Compare is a total order.",
+         "deductive verification: WP over go/ssa + SMT lemmas over uninterpreted features", "DESIGN.md 4 C03"),
 }
 _pending = "not decided yet by the contract engine in this revision (claimed in DESIGN.md, contracts not written yet)"
 NA = {
@@ -11,5 +18,5 @@ NA = {
  "C18": "text/protobuf round trips; nothing beyond assumed axioms would be proved (DESIGN.md 4 C18)",
  "C20": "races, deadlocks, leaks are schedule properties; sequential WP cannot see them (DESIGN.md 4 C20)",
 }
-for p in ["C02","C03","C04","C05","C06","C07","C08","C09","C10","C11","C12","C14","C16","C17"]:
+for p in ["C02","C04","C06","C07","C08","C09","C10","C11","C12","C14","C16","C17"]:
     NA[p] = _pending
